@@ -1,5 +1,6 @@
 use crate::core::Property;
 
+pub mod c04;
 pub mod c06;
 pub mod c07;
 pub mod c15_16;
@@ -7,6 +8,7 @@ pub mod indic;
 
 pub fn registry() -> Vec<Box<dyn Property>> {
     vec![
+        Box::new(c04::C04),
         Box::new(c06::C06),
         Box::new(c07::C07),
         Box::new(indic::C08),
